@@ -453,7 +453,7 @@ class Gen:
         return {"k": "liquid", "lines": [self.node(min(depth, 2) - 1, in_loop, True) for _ in range(self.r.randint(1, 4))]}
 
     def n_comment(self, depth, in_loop, line_mode) -> dict:
-        return {"k": "comment", "v": self.text(["a", " ", "b", "\n"], 0, 6), "lines": ["echo 'hidden'", "assign zz = 1"][: self.pick([0, 1, 2])]}
+        return {"k": "comment", "v": self.text(["a", " ", "b", "\n"], 0, 6), "clines": ["echo 'hidden'", "assign zz = 1"][: self.pick([0, 1, 2])]}
 
     def n_inline_comment(self, depth, in_loop, line_mode) -> dict:
         return {"k": "inline_comment", "v": self.text(["a", " ", "b"], 0, 6)}
@@ -776,7 +776,7 @@ def line_src(n: Any, d: Delims = DEFAULT) -> list:  # noqa: PLR0911, PLR0912
     if k == "inline_comment":
         return [d.lc + " " + n["v"]]
     if k == "comment":  # a block comment inside a liquid tag: its body is lines that look like tags
-        return ["comment", *(n.get("lines") or []), "endcomment"]
+        return ["comment", *(n.get("clines") or []), "endcomment"]
     if k == "call":
         args = [expr_src(a) for a in n["args"]] + [arg_src(a) for a in n["kwargs"]]
         return [f"call {n['name']}" + (" " + ", ".join(args) if args else "")]
